@@ -19,8 +19,17 @@ impl Chunk {
             idx >= old(self).instructions@.len() ==> r is None && final(self).instructions@ == old(self).instructions@,
     { unimplemented!() }
 }
-/// the one variant the set-block arm looks at; every other variant of the real enum collapsed
-pub enum Expression { Filter(Spanned<Filter>), VxOther(VxOpaque) }
+// payloads of the real Expression enum (extracted from the source) that no arm under contract looks into
+#[verifier::external_body] pub struct Array { _p: () }
+#[verifier::external_body] pub struct Map { _p: () }
+#[verifier::external_body] pub struct Var { _p: () }
+#[verifier::external_body] pub struct GetAttr { _p: () }
+#[verifier::external_body] pub struct GetItem { _p: () }
+#[verifier::external_body] pub struct Slice { _p: () }
+#[verifier::external_body] pub struct Test { _p: () }
+#[verifier::external_body] pub struct ComponentCall { _p: () }
+#[verifier::external_body] pub struct FunctionCall { _p: () }
+#[verifier::external_body] pub struct UnaryOperation { _p: () }
 #[verifier::external_body]
 pub struct Node { _p: () }
 /// a set of variable names (HashSet<String>): contents not needed here
@@ -80,3 +89,8 @@ pub fn vx_first_span(v: &Vec<Expression>) -> Option<Span> { unimplemented!() }
 /// ASSUMED bound: an AST list is far shorter than 2^27
 #[verifier::external_body]
 pub proof fn axiom_ast_small(n: nat) ensures n < 0x0800_0000 {}
+pub uninterp spec fn cond_of(e: Spanned<ListComprehension>) -> bool;
+impl Spanned<ListComprehension> {
+    #[verifier::external_body]
+    pub fn into_parts(self) -> (r: (ListComprehension, Span)) ensures (r.0.condition is Some) == cond_of(self) { unimplemented!() }
+}
